@@ -5,6 +5,7 @@ mod c12;
 mod c13;
 mod c15;
 mod c16;
+mod c19;
 mod recdest;
 mod rng;
 
@@ -66,6 +67,7 @@ fn main() {
         ("gen", "C06") => c12::generate("C06", seed, &tier, &mut out),
         ("gen", "C20") => c12::generate("C20", seed, &tier, &mut out),
         ("gen", "C01") => c01::generate("C01", seed, &tier, &mut out),
+        ("gen", "C19") => c19::generate(seed, &tier, &mut out),
         ("gen", "C15") => c15::generate(seed, &tier, &mut out),
         ("gen", "C13") => c13::generate(seed, &tier, &mut out),
         ("gen", "C09") => c09::generate("C09", seed, &tier, &mut out),
